@@ -38,7 +38,7 @@ Definition s_dec (k : nat) (x : N) : list N := map (fun d => nth (N.to_nat d) ac
 (* ---------- C03 ---------- *)
 Fixpoint index_of (x : N) (l : list N) : nat :=
   match l with [] => 0%nat | y :: t => if x =? y then 0%nat else S (index_of x t) end.
-Definition canon_list (k : nat) : list N := filter (canonb k) (nrange (N.to_nat (4 ^ N.of_nat k))).
+Definition canon_list (k : nat) : list N := filter (canonb k) (nrange_fast (N.to_nat (4 ^ N.of_nat k))).
 (* count | canonical codes in column order | column of each canonical code (through the vector pos_map) *)
 Definition m_posmap (k : nat) : list N :=
   let vec := min_mer_vec k in
